@@ -16,6 +16,9 @@ type rqCase struct {
 	S, D string
 	// Amps are source amplitudes (one value, or a lower and a higher one for an order violation)
 	Amps []int64
+	Ch   []int // channel count of the buffers each value went through
+	Pos  []int // interleaved position of each value inside its block
+	Len  []int // length of that block
 }
 
 // ampToRaw / rawToAmp convert between amplitude and the raw code of a format.
@@ -105,13 +108,11 @@ func rqDomains(c *core.Ctx, bs, bd int) []rqDomain {
 func rqEvalCase(which string, cs rqCase) (fs []F) {
 	s, d := typeByName(cs.S), typeByName(cs.D)
 	ts, td := dyn.Types[s], dyn.Types[d]
-	fwd := dyn.ConvBlock(s, d, len(cs.Amps))
-	in := make([]uint64, len(cs.Amps))
-	out := make([]uint64, len(cs.Amps))
+	vals := make([]uint64, len(cs.Amps))
 	for i, a := range cs.Amps {
-		in[i] = ampToRaw(ts.Kind, ts.Bits, a)
+		vals[i] = ampToRaw(ts.Kind, ts.Bits, a)
 	}
-	fwd(in, out)
+	out, out2 := evalAt(s, d, vals, cs.Pos, cs.Len, cs.Ch, which == "C07" && td.Bits > ts.Bits)
 	name := dyn.ConvName(s, d) + "/" + cs.S + "->" + cs.D
 	var res []int64
 	for i, a := range cs.Amps {
@@ -126,9 +127,6 @@ func rqEvalCase(which string, cs rqCase) (fs []F) {
 			Msg: fmt.Sprintf("%s: amplitude %d -> %d but the larger amplitude %d -> %d (order inverted)", name, cs.Amps[0], res[0], cs.Amps[1], res[1])})
 	}
 	if which == "C07" && td.Bits > ts.Bits {
-		back := dyn.ConvBlock(d, s, len(cs.Amps))
-		out2 := make([]uint64, len(cs.Amps))
-		back(out, out2)
 		for i, a := range cs.Amps {
 			if g := rawToAmp(ts.Kind, ts.Bits, out2[i]); g != a {
 				fs = append(fs, F{Key: name + "/roundtrip", Code: a, HasCode: true,
@@ -158,11 +156,11 @@ func rqRun(which string) func(c *core.Ctx) {
 					}
 					nfail := newFailCap(200)
 					roundtrip := which == "C07" && td.Bits > ts.Bits
-					newEval := func() func(in, out []int64) {
-						fwd := dyn.ConvBlock(s, d, blockN)
+					newEval := func(ch int) func(in, out []int64) {
+						fwd := dyn.ConvBlockCh(s, d, blockN, ch)
 						var back func(in, out []uint64)
 						if roundtrip {
-							back = dyn.ConvBlock(d, s, blockN)
+							back = dyn.ConvBlockCh(d, s, blockN, ch)
 						}
 						rin := make([]uint64, blockN)
 						rout := make([]uint64, blockN)
@@ -180,25 +178,31 @@ func rqRun(which string) func(c *core.Ctx) {
 								back(rout[:n], rback[:n])
 								for i, a := range in {
 									if rawToAmp(ts.Kind, ts.Bits, rback[i]) != a && nfail.ok("roundtrip") {
-										cs := rqCase{ts.Name, td.Name, []int64{a}}
+										cs := rqCase{ts.Name, td.Name, []int64{a}, []int{ch}, []int{i}, []int{n}}
 										c.Fail(cs, rqEvalCase(which, cs)...)
 									}
 								}
 							}
 						}
 					}
-					point := func(a, r int64) {
+					point := func(p sweepPos, a, r int64) {
 						if kind, _ := rqOracle(which, ts.Bits, td.Bits, a, r); kind != "" && nfail.ok(kind) {
-							cs := rqCase{ts.Name, td.Name, []int64{a}}
-							c.Fail(cs, rqEvalCase(which, cs)...)
+							chs, pos, lens := posOf(p, false)
+							cs := rqCase{ts.Name, td.Name, []int64{a}, chs, pos, lens}
+							fs := rqEvalCase(which, cs)
+							if len(fs) == 0 {
+								c.InternalError("%s: failure %s at amplitude %d (channels %d, position %d) seen in the sweep does not reproduce in isolation", name, kind, a, p.Ch, p.Idx)
+							}
+							c.Fail(cs, fs...)
 						}
 					}
-					orderFail := func(pi, po, in, out int64) {
+					orderFail := func(p sweepPos, pi, po, in, out int64) {
 						if which != "C06" {
 							return
 						}
 						if nfail.ok("order") {
-							cs := rqCase{ts.Name, td.Name, []int64{pi, in}}
+							chs, pos, lens := posOf(p, true)
+							cs := rqCase{ts.Name, td.Name, []int64{pi, in}, chs, pos, lens}
 							fs := rqEvalCase(which, cs)
 							if len(fs) == 0 {
 								c.InternalError("%s: order violation %d->%d, %d->%d seen in the sweep does not reproduce in isolation", name, pi, po, in, out)
@@ -206,8 +210,17 @@ func rqRun(which string) func(c *core.Ctx) {
 							c.Fail(cs, fs...)
 						}
 					}
-					n := runSeq(c, dom.gen, dom.shards, newEval, point, orderFail)
-					evals.Add(n)
+					var n int64
+					if dom.shards == 1 {
+						// small domains: the whole sequence once per channel count
+						for _, ch := range []int{1, 2, 3} {
+							n = runSeq(c, dom.gen, 1, []int{ch}, newEval, point, orderFail)
+							evals.Add(n)
+						}
+					} else {
+						n = runSeq(c, dom.gen, dom.shards, []int{2, 1, 3}, newEval, point, orderFail)
+						evals.Add(n)
+					}
 					if dom.primary {
 						distinct.Add(n)
 					}
@@ -229,7 +242,7 @@ func rqRun(which string) func(c *core.Ctx) {
 		if !c.Quick() {
 			tier32 = "every value (2^32)"
 		}
-		c.Set("rule", "all 121 signed/unsigned instantiations through the real conversion on real one-channel buffers in blocks; sources of 8 and 16 bits: every value; 32 bits: "+tier32+"; 64-bit sources: boundary alphabet plus cell end points (8/16-bit destinations; 32-bit in the thorough tier); every sequence ascending in amplitude, so order preservation is a streaming never-decreases check carried across blocks and shards; distinct_nontrivial counts (instantiation, source value) pairs of the primary sequence only (distinct by construction); every value is non-trivial (it is converted and judged)")
+		c.Set("rule", "all 121 signed/unsigned instantiations through the real conversion on real buffers with 1, 2 and 3 channels, in blocks whose destination is pre-filled with garbage; sources of 8 and 16 bits: every value; 32 bits: "+tier32+"; 64-bit sources: boundary alphabet plus cell end points (8/16-bit destinations; 32-bit in the thorough tier); every sequence ascending in amplitude, so order preservation is a streaming never-decreases check carried across blocks and shards; distinct_nontrivial counts (instantiation, source value) pairs of the primary sequence only (distinct by construction); every value is non-trivial (it is converted and judged)")
 		c.Assume("64-bit sources (int64,int,uint64,uint,uintptr) are covered by a finite alphabet, not exhaustively", "exact integer oracle; no floating point in the oracle", "linux/amd64")
 	}
 }
